@@ -25,14 +25,9 @@ PROP_MAX_WIDTH = 128
 PEARSON_DB_MAX_BITS = 1024        # the sparse Pearson densifies (rows x bits float64)
 PRODUCT_DB_MAX_BITS = 2 ** 20     # X * Y.T and scipy.sparse.linalg.norm allocate O(bits) (32 GiB at 2^32): tanimoto, dice, cosine
 
-# input classes in which today's code is known (and proved, Properties/C06.v *_refuted) to leave the definition
-FINDING_KEYS = {
-    'nonbinary_array': 'array-tanimoto-dice-nonbinary',      # array_metrics.tanimoto/dice on non-0/1 data
-    'explicit_zero': 'fp-tanimoto-dice-explicit-zero-count',  # fprint_metrics.tanimoto/dice, stored zero counts
-    'mixed_kind': 'fp-soergel-mixed-kind',                    # fprint_metrics.soergel(bit fp, count fp)
-    'csr_duplicates': 'csr-duplicate-entries',                # soergel / cosine on CSR with repeated column indices
-    'complex': 'fp-pearson-complex-std',                      # fprint_metrics.pearson returns a complex number
-}
+# the one input class in which today's code is known (and proved: Properties/C06.v fp_tanimoto_explicit_zero_refuted) to
+# leave the definition: fprint_metrics.tanimoto/dice on a count/float fingerprint that holds a stored zero count
+FINDING_KEYS = {'explicit_zero': 'fp-tanimoto-dice-explicit-zero-count'}
 
 
 def run(ctx):
@@ -43,8 +38,9 @@ def run(ctx):
     dist = {'fp_pair_class': {}, 'fp_kinds': {}, 'bits': {}, 'forms': {}, 'measures': {}, 'array_class': {},
             'array_flags': {'nonbinary': 0, 'dups': 0, 'unsorted': 0, 'explicit_zeros': 0}, 'db_via_array': 0, 'db_rows': {},
             'outcomes': {'value': 0, 'exception': 0, 'nan': 0, 'complex': 0}, 'prop_checks': 0, 'nojit_cases': 0,
+            'skipped_tanimoto_dice_on_nonbinary_arrays': 0,
             'zero_scores': 0, 'one_scores': 0}
-    allow = {k: True for k in ('mixed_kind', 'explicit_zero', 'allzero_count', 'nonbinary_array', 'csr_duplicates')}
+    allow = {}
 
     def bump(d, k, n=1):
         d[k] = d.get(k, 0) + n
@@ -58,8 +54,7 @@ def run(ctx):
         if r[0] not in ('ok', 'err'):
             # NaN / complex / wrong shape: distinct outcomes the model never produces
             found_input = True
-            ctx.fail('%s: implementation returned %s (%s)' % (key, r[0], str(r[1])[:120]), payload,
-                     finding_key=FINDING_KEYS['complex'] if r[0] == 'complex' else fkey)
+            ctx.fail('%s: implementation returned %s (%s)' % (key, r[0], str(r[1])[:120]), payload, finding_key=None)
             return
         if r[0] == 'ok':
             flat = [r[1]] if not isinstance(r[1], list) else [x for row in r[1] for x in row]
@@ -91,7 +86,6 @@ def run(ctx):
         small = bits <= PROP_MAX_WIDTH
         va, vb = (G.fp_vec(a0, bits), G.fp_vec(b0, bits)) if small else (None, None)
         trig_zero = G.fp_has_explicit_zero(a0) or G.fp_has_explicit_zero(b0)
-        trig_mixed = (a0['kind'] == 'KBit') != (b0['kind'] == 'KBit')
         bump(dist['fp_pair_class'], cls)
         bump(dist['fp_kinds'], a0['kind'] + '/' + b0['kind'])
         bump(dist['bits'], str(bits))
@@ -112,13 +106,7 @@ def run(ctx):
             base = {'measure': m, 'class': cls, 'a': fpgen.obs_json(a0), 'b': fpgen.obs_json(b0)}
 
             def fkey_fp():
-                if m in ('tanimoto', 'dice') and trig_zero:
-                    return FINDING_KEYS['explicit_zero']
-                if m == 'soergel' and trig_mixed:
-                    return FINDING_KEYS['mixed_kind']
-                if m == 'soergel' and trig_zero and not (a0['kind'] != 'KBit' and b0['kind'] != 'KBit'):
-                    return FINDING_KEYS['explicit_zero']
-                return None
+                return FINDING_KEYS['explicit_zero'] if m in ('tanimoto', 'dice') and trig_zero else None
             forms = []
             # fprint_metrics.<m>(a, b) and the dispatcher on two fingerprints
             forms.append(('fm', lambda: getattr(FM, m)(fpgen.build(sa), fpgen.build(sb)),
@@ -217,9 +205,9 @@ def run(ctx):
             mc = MCON[m]
             fk = None
             if m in ('tanimoto', 'dice') and fl['nonbinary']:
-                fk = FINDING_KEYS['nonbinary_array']
-            elif fl['dups']:
-                fk = FINDING_KEYS['csr_duplicates']
+                # array_metrics.tanimoto/dice: "Data must be binary. This is not checked." - outside their contract
+                bump(dist, 'skipped_tanimoto_dice_on_nonbinary_arrays')
+                continue
             model = 'array_metric %s %s %s' % (mc, G.arr_lit(X), 'None' if Y is None else '(Some %s)' % G.arr_lit(Y))
             prop = None if 'width-mismatch' in cls else 'Ok (def_pairwise %s %s %s)' % (mc, G.vecs_lit(xs), G.vecs_lit(ys))
             r = G.observe(lambda: getattr(AM, m)(G.build_arr(X), None if Y is None else G.build_arr(Y)))
@@ -273,6 +261,7 @@ def run(ctx):
         'non-zero entry); distinct by full input, form and measure' % PROP_MAX_WIDTH)
     ctx.coverage['input_distribution'] = dist
     ctx.assumptions += [
+        'array_metrics.tanimoto/dice are called on raw arrays with 0/1 data only (any dtype, explicit zeros, duplicates that add up to 0/1): their docstring states "Data must be binary. This is not checked."; the theorems arr/sp_tanimoto_eq_def carry the hypothesis `binary`',
         'values are non-negative; counts < 2^16 (the uint16 database dtype); float inputs are finite doubles, taken exactly',
         'Pearson of a constant non-zero vector (mathematically 0/0) is only compared for exactly representable constants, where the code reaches its zero-denominator branch; with round-off the quotient is ill-conditioned',
         'database forms of Pearson only for bits <= %d and of Tanimoto/Dice/cosine for bits <= 2^20 (the code densifies, resp. SciPy allocates O(bits): 32 GiB at 2^32); Soergel database forms and all fingerprint-pair forms are run up to 2^32' % PEARSON_DB_MAX_BITS,
